@@ -1,8 +1,16 @@
-(* C02, direction "equal documents cost nothing": if two trees are equal as data (typed, lists ordered, mappings
-   unordered) then the model script for them has total cost 0, for every oracle and option set. *)
-From Coq Require Import ZArith List Bool Lia.
+(* C02 for the big-step script model.
+   1. equal_zero: documents that are equal as data (typed, lists ordered, mappings unordered) cost 0.
+   2. script_priced: every script of the model is `priced` (EqualSpec): a zero-cost Match only between == nodes,
+      Replace / string edits cost > 0, Remove / Insert cost size + penalty.  With C01 (valid) and C03 (additive)
+      the script-level theorem EqualSpec.spec_sound gives  cost 0 -> zsim  ("equal up to D4 and D16").
+   3. zsim_data: zsim implies equal-as-data when no two scalars are Python-== without being equal as data (D4)
+      and no list of leaves contains a zero-size leaf (D16).
+   4. script_zero_iff: under these two carve-outs, cost 0 <-> equal as data; the refutations of the full
+      statement ([1] vs [1.0]; [] vs [null]) and the classification of every failure of the full statement. *)
+From Coq Require Import ZArith List Bool Lia Permutation.
 Require Import GT.PyBase GT.Data GT.ScriptSpec GT.EdEngine GT.LevModel GT.LevProofs GT.EdTypes GTgen.EdGen GT.EdParams
-               GT.ScriptModel GT.KeyEq GT.ScriptProofs.
+               GT.ScriptModel GT.ListAux GT.KeyEq GT.EdFacts GT.EdEngineProofs GT.ScriptProofs GT.MSetProofs GT.CostProofs
+               GT.RestrictProofs GT.StrSpec GT.LcsProofs GT.EqualSpec GT.ScriptKnown.
 Import ListNotations.
 Open Scope Z_scope.
 
@@ -22,16 +30,6 @@ Lemma consistent_sub : forall a b a' b', incl (leaves a') (leaves a) -> incl (le
 Proof.
   intros a b a' b' Ha Hb H. unfold consistent in *. rewrite forallb_forall in *. intros x Hx.
   specialize (H x (Ha x Hx)). rewrite forallb_forall in *. intros y Hy. apply H. apply Hb. exact Hy.
-Qed.
-
-Lemma leaves_child : forall t c, In c (children t) -> incl (leaves c) (leaves t).
-Proof.
-  intros t c Hin x Hx. destruct t as [l|? ? cs|? k v|? cs|cs]; cbn in *.
-  - destruct Hin.
-  - apply in_flat_map. eauto.
-  - destruct Hin as [<-|[<-|[]]]; apply in_or_app; auto.
-  - apply in_flat_map. eauto.
-  - apply in_flat_map. eauto.
 Qed.
 
 Definition Pdn (a : tree) : Prop := forall b, consistent a b = true -> data_eqb a b = true -> node_eqb a b = true.
@@ -91,14 +89,12 @@ Proof.
   destruct a as [x|ale alsl cs|ake k v|amk cs|cs].
   - destruct b as [y| | | |]; try discriminate. cbn in H, Hd, Hn. unfold leaf_data_eqb in Hd.
     apply andb_prop in Hd as [Hk Ht]. apply lkind_eqb_eq in Hk. unfold leaf_script in H. rewrite <- Hk in H.
-    assert (Hnum : OK (EMatch (leaf_match_cost x y)) = OK e -> cost e = 0).
-    { intro He. inversion He; subst e. cbn. unfold leaf_match_cost.
-      destruct (lk x) eqn:Ekx; cbn in Ht; try (apply str_eqb_eq in Ht; rewrite Ht, lev_refl, Hn, !andb_false_r; reflexivity).
-      unfold py_eqb in Hn. rewrite <- Hk, Ekx in Hn. cbn in Hn.
-      (* null against null is decided before; unreachable here but harmless *)
-      destruct (leaf_zero_cost_adjusted && (lev (ltext x) (ltext y) =? 0) && negb true) eqn:E; cbn in E;
-        rewrite andb_false_r in E; discriminate. }
-    destruct (lk x) eqn:Ekx; try (apply Hnum; exact H).
+    assert (Hnum : lk x <> KNull -> OK (EMatch (leaf_match_cost x y)) = OK e -> cost e = 0).
+    { intros Hnn He. inversion He; subst e. cbn. unfold leaf_match_cost.
+      destruct (lk x) eqn:Ekx; cbn in Ht;
+        try (apply str_eqb_true_eq in Ht; rewrite Ht, lev_refl, Hn, !andb_false_r; reflexivity).
+      exfalso. apply Hnn. reflexivity. }
+    destruct (lk x) eqn:Ekx; try (apply Hnum; [discriminate|exact H]).
     + cbn in Ht. rewrite Ht in H. inversion H; reflexivity.
     + inversion H; reflexivity.
   - destruct b as [y|ale' alsl' ds| | |]; try discriminate. cbn [script] in H.
@@ -117,15 +113,625 @@ Proof.
     assert (Hsub : forall c d, In c cs -> In d ds -> consistent c d = true).
     { intros c d Hc' Hd'. eapply consistent_sub; [| |exact Hc]; apply leaves_child; assumption. }
     assert (H1 : forallb (fun c => existsb (fun d => node_eqb c d) ds) cs = true).
-    { clear H Hn Hback. induction cs as [|c cs IH]; [reflexivity|]. apply andb_prop in Hall as [Ha Hb].
-      cbn. apply andb_true_intro. split.
-      - apply existsb_exists in Ha. destruct Ha as [d [Hd' Hcd]]. apply existsb_exists. exists d. split; [exact Hd'|].
-        apply data_node; [apply Hsub; [left; reflexivity|exact Hd']|exact Hcd].
-      - apply IH; [cbn in Hl; destruct ds; [discriminate|]; cbn | exact Hb | intros; apply Hsub; [right|]; assumption].
-        (* the length equation is not needed for the inclusion *) exact (eq_refl). }
+    { apply forallb_forall. intros c Hc'.
+      assert (Hex : existsb (fun d => data_eqb c d) ds = true).
+      { clear -Hall Hc'. induction cs as [|c0 cs IH]; [destruct Hc'|]. apply andb_prop in Hall as [Ha Hb].
+        destruct Hc' as [->|Hc']; [exact Ha|apply IH; assumption]. }
+      apply existsb_exists in Hex. destruct Hex as [d [Hd' Hcd]]. apply existsb_exists. exists d. split; [exact Hd'|].
+      apply data_node; [apply Hsub; assumption|exact Hcd]. }
     assert (H2 : forallb (fun d => existsb (fun c => node_eqb c d) cs) ds = true).
     { rewrite forallb_forall in Hback. apply forallb_forall. intros d Hd'. specialize (Hback d Hd').
       apply existsb_exists in Hback. destruct Hback as [c [Hc' Hcd]]. apply existsb_exists. exists c. split; [exact Hc'|].
       apply data_node; [apply Hsub; assumption|exact Hcd]. }
     rewrite H1, H2, orb_true_r in H. inversion H; reflexivity.
 Qed.
+
+(* ================================================================ 2. the model's scripts are priced *)
+Definition Ppr (x y : tree) (e : edit) : Prop := priced x y e = true.
+
+Definition sub_pr (a b : tree) (k : kind) (s : sub) : Prop :=
+  match s with
+  | SPair i j e => sub_ok Ppr a b (SPair i j e)
+  | SRem i c => exists x, nth_error (children a) i = Some x /\ size x + pen_of k a b <= c
+  | SIns j c => exists y, nth_error (children b) j = Some y /\ size y + pen_of k a b <= c
+  end.
+
+Lemma priced_comp : forall a b k c subs, Forall (sub_pr a b k) subs -> priced a b (EComp k c subs) = true.
+Proof.
+  intros a b k c subs H. cbn [priced]. induction H as [|s ss Hs _ IH]; [reflexivity|].
+  destruct s as [i j e|i c'|j c']; cbn in Hs.
+  - destruct Hs as [x [y [Hx [Hy Hp]]]]. rewrite Hx, Hy. unfold Ppr in Hp. rewrite Hp. exact IH.
+  - destruct Hs as [x [Hx Hle]]. rewrite Hx. apply Z.leb_le in Hle. rewrite Hle. exact IH.
+  - destruct Hs as [y [Hy Hle]]. rewrite Hy. apply Z.leb_le in Hle. rewrite Hle. exact IH.
+Qed.
+
+(* the cost formulas of Replace / Remove / Insert as translated from the current source *)
+Lemma remove_cost_eq : forall x p, remove_cost x p = size x + p. Proof. reflexivity. Qed.
+Lemma insert_cost_eq : forall x p, insert_cost x p = size x + p. Proof. reflexivity. Qed.
+Lemma replace_cost_pos : forall a b, 0 < replace_cost a b.
+Proof. intros a b. unfold replace_cost, replace_cost_gen. pose proof (size_nonneg a). pose proof (size_nonneg b). lia. Qed.
+
+Lemma replace_priced : forall a b, priced a b (EReplace (replace_cost a b)) = true.
+Proof. intros a b. cbn. apply Z.ltb_lt. apply replace_cost_pos. Qed.
+
+Lemma rem_pr : forall a b k i p, (i < length (children a))%nat -> pen_of k a b <= p ->
+  sub_pr a b k (SRem i (remove_cost (nth i (children a) dummy) p)).
+Proof.
+  intros a b k i p Hi Hp. cbn. exists (nth i (children a) dummy). split; [apply nth_error_nth_lt; exact Hi|].
+  rewrite remove_cost_eq. lia.
+Qed.
+
+Lemma ins_pr : forall a b k j p, (j < length (children b))%nat -> pen_of k a b <= p ->
+  sub_pr a b k (SIns j (insert_cost (nth j (children b) dummy) p)).
+Proof.
+  intros a b k j p Hj Hp. cbn. exists (nth j (children b) dummy). split; [apply nth_error_nth_lt; exact Hj|].
+  rewrite insert_cost_eq. lia.
+Qed.
+
+Lemma match0_pr : forall a b k i j, (i < length (children a))%nat -> (j < length (children b))%nat ->
+  node_eqb (nth i (children a) dummy) (nth j (children b) dummy) = true -> sub_pr a b k (SPair i j (EMatch 0)).
+Proof.
+  intros a b k i j Hi Hj He. cbn. exists (nth i (children a) dummy), (nth j (children b) dummy).
+  repeat split; try (apply nth_error_nth_lt; assumption). unfold Ppr. cbn [priced]. rewrite He. reflexivity.
+Qed.
+
+Lemma matrix_pr : forall O pa pb cs ds i j e a b k,
+  Forall (Pgen Ppr) cs -> (forall c, In c cs -> wf c = true) -> (forall d, In d ds -> wf d = true) ->
+  children a = cs -> children b = ds ->
+  mget (sub_matrix O pa pb cs ds) i j = Some (OK e) -> sub_pr a b k (SPair i j e).
+Proof. intros. cbn [sub_pr]. eapply (from_matrix Ppr); eauto. Qed.
+
+(* ---------------------------------------------------------------- lists *)
+Lemma fixed_len_pr : forall O pa pb ale alsl cs ale' alsl' ds subs,
+  Forall (Pgen Ppr) cs -> wf (Lst ale alsl cs) = true -> wf (Lst ale' alsl' ds) = true ->
+  fixed_len_subs cs ds (sub_matrix O pa pb cs ds) = Some subs ->
+  Forall (sub_pr (Lst ale alsl cs) (Lst ale' alsl' ds) KFixedLen) subs.
+Proof.
+  intros O pa pb ale alsl cs ale' alsl' ds subs IH Hwa Hwb H. unfold fixed_len_subs in H. cbv zeta in H.
+  destruct (all_some _) as [ps|] eqn:Eps; [|discriminate]. inversion H; subst subs; clear H.
+  apply all_some_map in Eps. cbn in Hwa, Hwb. rewrite !Forall_app. repeat split.
+  - induction Eps as [|i y l r Hy _ IHf]; constructor; [|exact IHf].
+    destruct (mget _ i i) as [[e|]|] eqn:Em; inversion Hy; subst y.
+    eapply matrix_pr; [exact IH|intros c0 Hc0; eapply wf_child_lst; [exact Hwa|exact Hc0]|
+                       intros d0 Hd0; eapply wf_child_lst; [exact Hwb|exact Hd0]|reflexivity|reflexivity|exact Em].
+  - destruct (length ds <? length cs)%nat eqn:E; [apply Nat.ltb_lt in E|constructor].
+    apply Forall_forall. intros s Hs. apply in_map_iff in Hs. destruct Hs as [i [<- Hi]]. apply in_seq in Hi.
+    rewrite remove_from_pos_spec in Hi by exact E.
+    apply (rem_pr (Lst ale alsl cs) (Lst ale' alsl' ds) KFixedLen i 1); cbn; lia.
+  - destruct (length cs <? length ds)%nat eqn:E; [apply Nat.ltb_lt in E|constructor].
+    apply Forall_forall. intros s Hs. apply in_map_iff in Hs. destruct Hs as [j [<- Hj]]. apply in_seq in Hj.
+    rewrite insert_from_pos_spec in Hj by exact E.
+    apply (ins_pr (Lst ale alsl cs) (Lst ale' alsl' ds) KFixedLen j 1); cbn; lia.
+Qed.
+
+Lemma dispatch_penalty : forall ce ale alsl lf lt la lb p,
+  list_dispatch_gen true ce ale alsl lf lt la lb = LEditDist p -> p = if la && lb then 0 else 1.
+Proof.
+  intros ce ale alsl lf lt la lb p H. unfold list_dispatch_gen in H. destruct ce; [discriminate|].
+  destruct (negb ale || _); [discriminate|]. inversion H. reflexivity.
+Qed.
+
+Lemma dispatch_match0 : forall il ce ale alsl lf lt la lb,
+  list_dispatch_gen il ce ale alsl lf lt la lb = LMatch0 -> ce = true.
+Proof.
+  intros il ce ale alsl lf lt la lb H. unfold list_dispatch_gen in H. destruct il; [|discriminate].
+  destruct ce; [reflexivity|]. destruct (negb ale || _); discriminate.
+Qed.
+
+Lemma edit_dist_pr : forall O pa pb ale alsl cs ale' alsl' ds c k subs,
+  Forall (Pgen Ppr) cs -> wf (Lst ale alsl cs) = true -> wf (Lst ale' alsl' ds) = true ->
+  edit_dist_script (if all_leaves cs && all_leaves ds then 0 else 1) cs ds (sub_matrix O pa pb cs ds) = OK (EComp k c subs) ->
+  Forall (sub_pr (Lst ale alsl cs) (Lst ale' alsl' ds) KEditDist) subs.
+Proof.
+  intros O pa pb ale alsl cs ale' alsl' ds c0 k subs IH Hwa Hwb H.
+  assert (Hpen : pen_of KEditDist (Lst ale alsl cs) (Lst ale' alsl' ds) <= (if all_leaves cs && all_leaves ds then 0 else 1))
+    by (unfold pen_of; cbn [children]; apply Z.le_refl).
+  set (penalty := if all_leaves cs && all_leaves ds then 0 else 1) in *.
+  set (A := Lst ale alsl cs) in *. set (B := Lst ale' alsl' ds) in *.
+  assert (HcA : children A = cs) by reflexivity. assert (HcB : children B = ds) by reflexivity.
+  destruct (trim node_eqb cs ds) as [p q] eqn:Et.
+  rewrite (edit_dist_script_unfold _ _ _ _ _ _ Et) in H. cbv zeta in H.
+  pose proof (trim_bounds _ _ _ _ _ Et) as [Hp1 [Hp2 [Hpq1 Hpq2]]].
+  set (cs' := middle p q cs) in *. set (ds' := middle p q ds) in *.
+  set (rc := map (fun c => remove_cost c penalty) cs') in *. set (ic := map (fun d => insert_cost d penalty) ds') in *.
+  set (M := sub_matrix O pa pb cs ds) in *.
+  destruct (ed_costs _) as [mcs|] eqn:Ec; [|discriminate]. inversion H as [[Hk Hc0 Hsubs]]; clear H Hk Hc0 Hsubs.
+  assert (Hlrc : length rc = length cs') by (unfold rc; apply map_length).
+  assert (Hlic : length ic = length ds') by (unfold ic; apply map_length).
+  assert (Hd : dims_ok rc ic mcs) by (eapply ed_costs_dims; eauto).
+  assert (Hlc : length cs' = (length cs - p - q)%nat) by (apply middle_length; exact Hpq1).
+  assert (Hld : length ds' = (length ds - p - q)%nat) by (apply middle_length; exact Hpq2).
+  assert (Hwc : forall c1, In c1 cs -> wf c1 = true) by (intros c1 Hc1; eapply wf_child_lst; [exact Hwa|exact Hc1]).
+  assert (Hwd : forall d1, In d1 ds -> wf d1 = true) by (intros d1 Hd1; eapply wf_child_lst; [exact Hwb|exact Hd1]).
+  rewrite !Forall_app. repeat split.
+  - apply Forall_forall. intros s Hs. apply in_map_iff in Hs. destruct Hs as [i [<- Hi]]. apply in_seq in Hi.
+    apply match0_pr; rewrite ?HcA, ?HcB; try lia.
+    apply (trim_prefix_nth node_eqb cs ds p q i dummy dummy Et). lia.
+  - pose proof (alignment_in_range _ _ _ Hd) as Hr. rewrite Forall_forall in Hr.
+    apply Forall_forall. intros s Hs. apply in_map_iff in Hs. destruct Hs as [o [<- Ho]]. specialize (Hr o Ho).
+    destruct o as [c r|c|r]; cbn in Hr.
+    + destruct Hr as [Hc Hr]. unfold ed_sub.
+      destruct (ed_costs_nth M p (length cs') (length ds') mcs r c Ec) as [res [Hm Hcost]]; [lia|lia|].
+      rewrite Hm. destruct res as [e|x]; [|discriminate].
+      eapply matrix_pr; [exact IH|exact Hwc|exact Hwd|exact HcA|exact HcB|exact Hm].
+    + cbn [ed_sub].
+      assert (Hn : nth c rc 0 = remove_cost (nth (p + c) (children A) dummy) penalty).
+      { unfold rc. rewrite (nth_map_lt _ cs' c dummy 0) by lia. f_equal. rewrite HcA. apply middle_nth. fold cs'. lia. }
+      rewrite Hn. apply rem_pr; [rewrite HcA; lia|exact Hpen].
+    + cbn [ed_sub].
+      assert (Hn : nth r ic 0 = insert_cost (nth (p + r) (children B) dummy) penalty).
+      { unfold ic. rewrite (nth_map_lt _ ds' r dummy 0) by lia. f_equal. rewrite HcB. apply middle_nth. fold ds'. lia. }
+      rewrite Hn. apply ins_pr; [rewrite HcB; lia|exact Hpen].
+  - apply Forall_forall. intros s Hs. apply in_map_iff in Hs. destruct Hs as [i [<- Hi]]. apply in_seq in Hi.
+    apply match0_pr; rewrite ?HcA, ?HcB; try lia.
+    apply (trim_suffix_nth node_eqb cs ds p q i dummy dummy Et). lia.
+Qed.
+
+(* ---------------------------------------------------------------- multisets *)
+Lemma multiset_pr : forall O pa pb amk cs amk' ds c k subs,
+  Forall (Pgen Ppr) cs -> wf (MSet amk cs) = true -> wf (MSet amk' ds) = true ->
+  multiset_script O pa pb amk cs ds (sub_matrix O pa pb cs ds) = OK (EComp k c subs) ->
+  Forall (sub_pr (MSet amk cs) (MSet amk' ds) KMultiSet) subs.
+Proof.
+  intros O pa pb amk cs amk' ds c0 k subs IH Hwa Hwb H. cbn in Hwa, Hwb.
+  apply andb_prop in Hwa as [Hwa Kcs]. apply andb_prop in Hwb as [Hwb Kds].
+  destruct (wf_mset_parts _ Hwa) as [Hcs Hwcs]. destruct (wf_mset_parts _ Hwb) as [Hds Hwds].
+  set (M := sub_matrix O pa pb cs ds) in *.
+  rewrite multiset_script_unfold in H.
+  destruct (ms_matching O pa pb amk cs ds) as [mt|] eqn:Emt; [|destruct (lookup pa pb (o_match O)); discriminate].
+  destruct (all_some (map (ms_get M) (ms_pre amk cs ds))) as [pre_subs|] eqn:Epre; [|discriminate].
+  destruct (all_some (map (ms_get M) mt)) as [mt_subs|] eqn:Emts; [|discriminate].
+  cbv zeta in H. inversion H as [[Hk Hc0 Hsubs]]; clear H Hk Hc0 Hsubs. apply all_some_map in Epre, Emts.
+  assert (Hsub : forall l subs, Forall2 (fun x y => ms_get M x = Some y) l subs ->
+                 Forall (sub_pr (MSet amk cs) (MSet amk' ds) KMultiSet) subs).
+  { intros l subs0 HF. induction HF as [|ij s l r Hs _ IHF]; constructor; [|exact IHF].
+    apply ms_get_sub in Hs. destruct Hs as [e [-> Hm]]. eapply matrix_pr; eauto. }
+  rewrite !Forall_app. repeat split.
+  - apply Forall_forall. intros s Hs. apply in_map_iff in Hs. destruct Hs as [[i j] [<- Hij]]. cbn [fst snd].
+    apply in_partner in Hij. destruct Hij as [Hi Hf]. apply find_some in Hf. destruct Hf as [Hj Heq].
+    apply fl_lt in Hi. apply tl_lt in Hj. apply match0_pr; [exact Hi|exact Hj|exact Heq].
+  - eapply Hsub; exact Epre.
+  - eapply Hsub; exact Emts.
+  - apply Forall_forall. intros s Hs. apply in_map_iff in Hs. destruct Hs as [i [<- Hi]].
+    apply filter_In in Hi. destruct Hi as [Hi _]. unfold ms_R in Hi. apply filter_In in Hi. destruct Hi as [Hi _].
+    apply fl_lt in Hi. apply (rem_pr (MSet amk cs) (MSet amk' ds) KMultiSet i 1); [exact Hi|cbn; lia].
+  - apply Forall_forall. intros s Hs. apply in_map_iff in Hs. destruct Hs as [j [<- Hj]].
+    apply filter_In in Hj. destruct Hj as [Hj _]. unfold ms_I in Hj. apply filter_In in Hj. destruct Hj as [Hj _].
+    apply tl_lt in Hj. apply (ins_pr (MSet amk cs) (MSet amk' ds) KMultiSet j 1); [exact Hj|cbn; lia].
+Qed.
+
+(* ---------------------------------------------------------------- fixed-key dictionaries *)
+Lemma fixed_dict_pr : forall O pa pb cs ds c k subs,
+  Forall (Pgen Ppr) cs -> wf (FDict cs) = true -> wf (FDict ds) = true ->
+  fixed_dict_script O pa pb (FDict cs) (FDict ds) cs ds (sub_matrix O pa pb cs ds) = OK (EComp k c subs) ->
+  Forall (sub_pr (FDict cs) (FDict ds) KFixedDict) subs.
+Proof.
+  intros O pa pb cs ds c0 k subs IH Hwa Hwb H. cbn in Hwa, Hwb.
+  apply andb_prop in Hwa as [Hwa Kcs]. apply andb_prop in Hwb as [Hwb Kds].
+  destruct (wf_mset_parts _ Hwa) as [Hcs Hwcs]. destruct (wf_mset_parts _ Hwb) as [Hds Hwds].
+  set (M := sub_matrix O pa pb cs ds) in *.
+  rewrite fixed_dict_script_unfold in H.
+  destruct (fd_order O pa pb cs ds) as [ord|] eqn:Eo; [|destruct (lookup pa pb (o_order O)); discriminate].
+  destruct (all_some (map (fd_get cs ds M) (fd_shared cs ds))) as [sh|] eqn:Esh; [|discriminate].
+  cbv zeta in H. destruct (_ <=? _); [|discriminate]. inversion H as [[Hk Hc0 Hsubs]]; clear H Hk Hc0 Hsubs.
+  apply all_some_map in Esh. rewrite !Forall_app. repeat split.
+  - assert (Hlt : forall ij, In ij (fd_shared cs ds) -> (fst ij < length cs)%nat /\ (snd ij < length ds)%nat).
+    { intros [i j] Hin. apply in_fd_shared in Hin. destruct Hin as [Hi Hp]. cbn.
+      split; [exact Hi|]. apply (fd_partner_spec cs ds i j Hi Hp). }
+    induction Esh as [|ij s l r Hs _ IHF]; constructor; [|apply IHF; intros; apply Hlt; right; assumption].
+    destruct (Hlt ij (or_introl eq_refl)) as [Hi Hj]. unfold fd_get in Hs.
+    destruct (node_eqb (nth (fst ij) cs dummy) (nth (snd ij) ds dummy)) eqn:En.
+    + inversion Hs. apply match0_pr; [exact Hi|exact Hj|exact En].
+    + destruct (mget M (fst ij) (snd ij)) as [[e|]|] eqn:Em; inversion Hs. eapply matrix_pr; eauto.
+  - apply Forall_forall. intros s Hs. apply in_map_iff in Hs. destruct Hs as [i [<- Hi]].
+    apply (Permutation_in i (fd_order_perm O pa pb cs ds ord Eo)) in Hi. unfold fd_unshared in Hi. apply filter_seq_lt in Hi.
+    apply (rem_pr (FDict cs) (FDict ds) KFixedDict i 1); [exact Hi|cbn; lia].
+  - apply Forall_forall. intros s Hs. apply in_map_iff in Hs. destruct Hs as [j [<- Hj]].
+    unfold fd_inserted in Hj. apply filter_seq_lt in Hj.
+    apply (ins_pr (FDict cs) (FDict ds) KFixedDict j 1); [exact Hj|cbn; lia].
+Qed.
+
+(* ---------------------------------------------------------------- leaves *)
+Lemma lev_dp_nonneg : forall s t, 0 <= lev_dp s t.
+Proof.
+  intros s t. unfold lev_dp, lev_last_col. change (fold_left _ t (lev_col0 s)) with (lev_cols s t).
+  rewrite last_nth, lev_cols_length. apply lev_cols_nonneg. lia.
+Qed.
+
+Lemma lev_nonneg : forall s t, 0 <= lev s t.
+Proof.
+  intros s t. unfold lev. destruct lev_returns_loop_var_cell; [destruct t; [lia|]|]; apply lev_dp_nonneg.
+Qed.
+
+(* LeafNode.edits as the current source has it (GTgen.EdGen.leaf_zero_cost_adjusted): a Match of two leaves costs 0
+   only if they are == *)
+Lemma leaf_match_priced : forall x y, priced (Leaf x) (Leaf y) (EMatch (leaf_match_cost x y)) = true.
+Proof.
+  intros x y. cbn [priced node_eqb]. unfold leaf_match_cost.
+  pose proof (lev_nonneg (ltext x) (ltext y)) as Hd. set (d := lev (ltext x) (ltext y)) in *.
+  change leaf_zero_cost_adjusted with true. cbn [andb].
+  destruct (Z.eqb_spec d 0) as [E|E]; destruct (py_eqb x y) eqn:Ep; cbn [negb andb].
+  - rewrite E. reflexivity.
+  - reflexivity.
+  - apply andb_true_intro. split; [apply Z.leb_le; lia|]. destruct (d =? 0); reflexivity.
+  - apply andb_true_intro. split; [apply Z.leb_le; lia|]. apply Z.eqb_neq in E. rewrite E. reflexivity.
+Qed.
+
+Lemma str_script_pos : forall s t, str_eqb s t = false -> 0 < fst (str_script s t).
+Proof.
+  intros s t Hne. rewrite C11_cost. destruct (lcs_witness s t) as [w [H1 [H2 H3]]].
+  pose proof (subseq_length _ _ H1) as L1. pose proof (subseq_length _ _ H2) as L2. rewrite H3 in L1, L2.
+  destruct (Z_lt_le_dec 0 (Z.of_nat (length s) + Z.of_nat (length t) - 2 * Z.of_nat (lcs s t))) as [Hpos|Hle];
+    [exact Hpos|exfalso].
+  assert (Es : w = s) by (apply subseq_full_length; [exact H1|lia]).
+  assert (Et : w = t) by (apply subseq_full_length; [exact H2|lia]).
+  subst s. subst t. rewrite LcsProofs.str_eqb_refl in Hne. discriminate.
+Qed.
+
+Lemma leaf_script_pr : forall x b e, leaf_script x (Leaf x) b = OK e -> priced (Leaf x) b e = true.
+Proof.
+  intros x b e H. unfold leaf_script in H.
+  destruct (lk x) eqn:Ekx; destruct b as [y| | | |];
+    try (inversion H; subst e; first [apply leaf_match_priced|apply replace_priced]).
+  - (* string *)
+    destruct (lk y) eqn:Eky; try (inversion H; subst e; apply leaf_match_priced).
+    destruct (str_eqb (ltext x) (ltext y)) eqn:Es.
+    + inversion H; subst e. cbn [priced node_eqb]. unfold py_eqb. rewrite Ekx, Eky, Es. reflexivity.
+    + destruct (Nat.eqb (length (ltext x)) 1 && Nat.eqb (length (ltext y)) 1); [inversion H; subst e; reflexivity|].
+      destruct (str_script (ltext x) (ltext y)) as [c ops] eqn:E. inversion H; subst e. cbn [priced].
+      apply Z.ltb_lt. pose proof (str_script_pos _ _ Es) as Hp. rewrite E in Hp. exact Hp.
+  - (* null *)
+    destruct (lk y) eqn:Eky; try (inversion H; subst e; apply replace_priced).
+    inversion H; subst e. cbn [priced node_eqb]. unfold py_eqb. rewrite Ekx, Eky. reflexivity.
+Qed.
+
+(* ---------------------------------------------------------------- mappings: a key-respecting inclusion between
+   mappings of the same size is onto *)
+Lemma filter_nil_iff : forall {A} (f : A -> bool) l, filter f l = [] <-> (forall x, In x l -> f x = false).
+Proof.
+  intros A f l. induction l as [|x l IH]; cbn; [split; [intros _ y []|reflexivity]|].
+  destruct (f x) eqn:E; split.
+  - discriminate.
+  - intro H. rewrite (H x (or_introl eq_refl)) in E. discriminate.
+  - intros H y [<-|Hy]; [exact E|apply IH; assumption].
+  - intro H. apply IH. intros y Hy. apply H. right. exact Hy.
+Qed.
+
+Lemma incl_surj : forall (R : tree -> tree -> bool) cs ds,
+  Forall kvp_ok cs -> Forall kvp_ok ds -> keys_distinct node_eqb cs = true -> keys_distinct node_eqb ds = true ->
+  (forall c d, In c cs -> In d ds -> R c d = true -> key_eqb c d = true) ->
+  (forall c, In c cs -> exists d, In d ds /\ R c d = true) ->
+  (length cs <= length ds)%nat /\
+  (length cs = length ds -> forall d, In d ds -> exists c, In c cs /\ R c d = true).
+Proof.
+  intros R cs ds Hcs Hds Kcs Kds HR Hincl.
+  assert (Hun : fd_unshared cs ds = []).
+  { unfold fd_unshared. apply filter_nil_iff. intros i Hi. apply in_seq in Hi.
+    destruct (fd_partner cs ds i) as [j|] eqn:E; [reflexivity|exfalso].
+    assert (Hin : In (nth i cs dummy) cs) by (apply nth_In; lia).
+    destruct (Hincl _ Hin) as [d [Hd HRd]].
+    unfold fd_partner in E. pose proof (find_index_none _ _ _ E d Hd) as Hn.
+    pose proof (HR _ _ Hin Hd HRd) as Hk. unfold key_eqb in Hk. congruence. }
+  pose proof (fd_from cs ds) as Hfrom. rewrite Hun, app_nil_r in Hfrom. apply Permutation_length in Hfrom.
+  rewrite map_length, seq_length in Hfrom.
+  pose proof (fd_to cs ds Hcs Hds Kcs Kds) as Hto. apply Permutation_length in Hto.
+  rewrite app_length, map_length, seq_length in Hto.
+  split; [lia|]. intros Hlen d Hd.
+  assert (Hins : fd_inserted cs ds = []) by (apply length_zero_iff_nil; lia).
+  apply (In_nth _ _ dummy) in Hd. destruct Hd as [j [Hj <-]].
+  unfold fd_inserted in Hins. pose proof (proj1 (filter_nil_iff _ _) Hins j) as Hf.
+  assert (Hjs : In j (seq 0 (length ds))) by (apply in_seq; lia). specialize (Hf Hjs).
+  apply negb_false_iff in Hf. apply existsb_exists in Hf. destruct Hf as [c [Hc Hk]].
+  destruct (Hincl c Hc) as [d' [Hd' HR']]. exists c. split; [exact Hc|].
+  assert (Heq : d' = nth j ds dummy).
+  { pose proof (HR _ _ Hc Hd' HR') as Hk'.
+    assert (Kc : kvp_ok c) by (eapply Forall_forall; [exact Hcs|exact Hc]).
+    assert (Kd' : kvp_ok d') by (eapply Forall_forall; [exact Hds|exact Hd']).
+    assert (Kj : kvp_ok (nth j ds dummy)) by (eapply Forall_forall; [exact Hds|apply nth_In; exact Hj]).
+    apply In_nth_error in Hd'. destruct Hd' as [j' Hj'].
+    assert (j' = j).
+    { apply (keys_distinct_nth ds j' j d' (nth j ds dummy) Kds Hds Hj' (nth_error_nth_lt ds j dummy Hj)).
+      apply (key_eqb_trans _ c); auto. rewrite key_eqb_sym by assumption. exact Hk'. }
+    subst j'. rewrite (nth_error_nth_lt ds j dummy Hj) in Hj'. inversion Hj'. reflexivity. }
+  rewrite <- Heq. exact HR'.
+Qed.
+
+Lemma forallb_inline : forall (f : tree -> tree -> bool) xs ys,
+  forallb (fun x => existsb (fun y => f x y) ys) xs =
+  (fix all (xs : list tree) : bool :=
+     match xs with [] => true | x :: xs' => existsb (fun y => f x y) ys && all xs' end) xs.
+Proof. intros f xs ys. induction xs as [|x xs IH]; [reflexivity|]. cbn. rewrite IH. reflexivity. Qed.
+
+(* FixedKeyDictNode.__eq__ is dictionary equality; the model's short cut tests mutual inclusion *)
+Lemma fdict_mutual_eq : forall cs ds, wf (FDict cs) = true -> wf (FDict ds) = true ->
+  forallb (fun c => existsb (fun d => node_eqb c d) ds) cs = true ->
+  forallb (fun d => existsb (fun c => node_eqb c d) cs) ds = true ->
+  node_eqb (FDict cs) (FDict ds) = true.
+Proof.
+  intros cs ds Hwa Hwb H1 H2. cbn in Hwa, Hwb.
+  apply andb_prop in Hwa as [Hwa Kcs]. apply andb_prop in Hwb as [Hwb Kds].
+  destruct (wf_mset_parts _ Hwa) as [Hcs _]. destruct (wf_mset_parts _ Hwb) as [Hds _].
+  rewrite forallb_forall in H1, H2.
+  assert (L1 : (length cs <= length ds)%nat).
+  { apply (incl_surj node_eqb cs ds Hcs Hds Kcs Kds).
+    - intros c d Hc Hd He.
+      apply node_eqb_key; [exact (proj1 (Forall_forall _ _) Hcs c Hc)|exact (proj1 (Forall_forall _ _) Hds d Hd)|exact He].
+    - intros c Hc. specialize (H1 c Hc). apply existsb_exists in H1. exact H1. }
+  assert (L2 : (length ds <= length cs)%nat).
+  { apply (incl_surj (fun d c => node_eqb c d) ds cs Hds Hcs Kds Kcs).
+    - intros d c Hd Hc He.
+      assert (Kc : kvp_ok c) by exact (proj1 (Forall_forall _ _) Hcs c Hc).
+      assert (Kd : kvp_ok d) by exact (proj1 (Forall_forall _ _) Hds d Hd).
+      rewrite key_eqb_sym by assumption. apply node_eqb_key; assumption.
+    - intros d Hd. specialize (H2 d Hd). apply existsb_exists in H2. exact H2. }
+  cbn [node_eqb]. rewrite <- forallb_inline. apply andb_true_intro. split; [apply Nat.eqb_eq; lia|].
+  apply forallb_forall. exact H1.
+Qed.
+
+(* ---------------------------------------------------------------- the whole model *)
+Theorem script_priced : forall a, Pgen Ppr a.
+Proof.
+  apply tree_rect'.
+  - intros x O pa pb b e _ _ H. cbn in H. apply leaf_script_pr. exact H.
+  - intros ale alsl cs IH O pa pb b e Hwa Hwb H. unfold Ppr. cbn [script] in H.
+    destruct b as [y|ale' alsl' ds|? ? ?|? ?|?];
+      try (rewrite list_dispatch_not_list in H; inversion H; subst e; apply replace_priced).
+    fold (sub_matrix O pa pb cs ds) in H.
+    match type of H with context [list_dispatch_gen true ?c] => set (ce := c) in * end.
+    destruct (list_dispatch_gen _ _ _ _ _ _ _ _) as [| |penalty|] eqn:Ed.
+    + inversion H; subst e. apply dispatch_match0 in Ed. cbn [priced]. cbn [Z.leb Z.eqb Z.compare andb].
+      change (node_eqb (Lst ale alsl cs) (Lst ale' alsl' ds)) with ce. exact Ed.
+    + destruct (fixed_len_subs cs ds _) as [subs|] eqn:Ef; [|discriminate]. inversion H; subst e.
+      apply priced_comp. eapply fixed_len_pr; eauto.
+    + apply dispatch_penalty in Ed. subst penalty.
+      assert (He : exists c subs, e = EComp KEditDist c subs).
+      { destruct (trim node_eqb cs ds) as [p q] eqn:Et. rewrite (edit_dist_script_unfold _ _ _ _ _ _ Et) in H.
+        cbv zeta in H. destruct (ed_costs _); [|discriminate]. inversion H. eauto. }
+      destruct He as [c [subs ->]]. apply priced_comp. eapply edit_dist_pr; eauto.
+    + inversion H; subst e. apply replace_priced.
+  - intros ake k v IHk IHv O pa pb b e Hwa Hwb H. unfold Ppr. cbn [script] in H.
+    destruct b as [y|? ? ?|ake' k' v'|? ?|?]; try discriminate.
+    destruct (ake || node_eqb k k'); [|inversion H; subst e; apply replace_priced].
+    cbn in Hwa, Hwb.
+    apply andb_prop in Hwa as [Hwa Hwv]. apply andb_prop in Hwa as [Hwa _]. apply andb_prop in Hwa as [_ Hwk].
+    apply andb_prop in Hwb as [Hwb Hwv']. apply andb_prop in Hwb as [Hwb _]. apply andb_prop in Hwb as [_ Hwk'].
+    assert (Hke : forall e1, (if node_eqb k k' then OK (EMatch 0) else script O (pa ++ [0%nat]) (pb ++ [0%nat]) k k') = OK e1 ->
+                  priced k k' e1 = true).
+    { intros e1 He. destruct (node_eqb k k') eqn:En; [inversion He; cbn [priced]; rewrite En; reflexivity|]. eapply IHk; eauto. }
+    assert (Hve : forall e2, (if node_eqb v v' then OK (EMatch 0) else script O (pa ++ [1%nat]) (pb ++ [1%nat]) v v') = OK e2 ->
+                  priced v v' e2 = true).
+    { intros e2 He. destruct (node_eqb v v') eqn:En; [inversion He; cbn [priced]; rewrite En; reflexivity|]. eapply IHv; eauto. }
+    destruct (if node_eqb k k' then _ else _) as [e1|x1]; [|destruct (if node_eqb v v' then _ else _); discriminate].
+    destruct (if node_eqb v v' then _ else _) as [e2|x2]; [|discriminate].
+    inversion H; subst e. cbn. rewrite (Hke e1 eq_refl), (Hve e2 eq_refl). reflexivity.
+  - intros amk cs IH O pa pb b e Hwa Hwb H. unfold Ppr. cbn [script] in H.
+    destruct b as [y|? ? ?|? ? ?|amk' ds|?]; try (inversion H; subst e; apply replace_priced).
+    destruct ((match cs, ds with [], [] => true | _, _ => false end) || node_eqb (MSet amk cs) (MSet amk' ds)) eqn:Eq.
+    + inversion H; subst e. cbn [priced]. cbn [Z.leb Z.eqb Z.compare andb].
+      apply orb_prop in Eq. destruct Eq as [Eq|Eq]; [|exact Eq].
+      destruct cs; [|discriminate]. destruct ds; [|discriminate]. reflexivity.
+    + assert (He : exists c subs, e = EComp KMultiSet c subs).
+      { rewrite multiset_script_unfold in H. destruct (ms_matching _ _ _ _ _ _); [|destruct (lookup _ _ _); discriminate].
+        destruct (all_some _); [|discriminate]. destruct (all_some _); [|discriminate]. inversion H. eauto. }
+      destruct He as [c [subs ->]]. apply priced_comp. eapply multiset_pr; eauto.
+  - intros cs IH O pa pb b e Hwa Hwb H. unfold Ppr. cbn [script] in H.
+    destruct b as [y|? ? ?|? ? ?|? ?|ds]; try (inversion H; subst e; apply replace_priced); try discriminate.
+    destruct ((match cs, ds with [], [] => true | _, _ => false end) || _) eqn:Eq.
+    + inversion H; subst e. cbn [priced]. cbn [Z.leb Z.eqb Z.compare andb].
+      apply orb_prop in Eq. destruct Eq as [Eq|Eq].
+      * destruct cs; [|discriminate]. destruct ds; [|discriminate]. reflexivity.
+      * apply andb_prop in Eq as [E1 E2]. apply fdict_mutual_eq; assumption.
+    + assert (He : exists c subs, e = EComp KFixedDict c subs).
+      { rewrite fixed_dict_script_unfold in H. destruct (fd_order _ _ _ _ _); [|destruct (lookup _ _ _); discriminate].
+        destruct (all_some _); [|discriminate]. cbv zeta in H. destruct (_ <=? _); [|discriminate]. inversion H. eauto. }
+      destruct He as [c [subs ->]]. apply priced_comp. eapply fixed_dict_pr; eauto.
+Qed.
+
+(* the direction  cost 0 -> equal up to D4 and D16,  for the model *)
+Theorem script_zero_sim : forall O pa pb a b e,
+  wf a = true -> wf b = true -> numtext_ok a = true -> numtext_ok b = true ->
+  script O pa pb a b = OK e -> 0 <= cost e /\ (cost e = 0 -> zsim a b = true).
+Proof.
+  intros O pa pb a b e Hwa Hwb Hna Hnb H. apply spec_sound; try assumption.
+  - exact (script_valid a O pa pb b e Hwa Hwb H).
+  - exact (script_additive a O pa pb b e H).
+  - exact (script_priced a O pa pb b e Hwa Hwb H).
+Qed.
+
+(* ================================================================ 3. zsim is data equality outside D4 and D16 *)
+Lemma typed_sub : forall a b a' b', incl (leaves a') (leaves a) -> incl (leaves b') (leaves b) ->
+  typed a b = true -> typed a' b' = true.
+Proof.
+  intros a b a' b' Ha Hb H. unfold typed in *. rewrite forallb_forall in *. intros x Hx.
+  specialize (H x (Ha x Hx)). rewrite forallb_forall in *. intros y Hy. apply H. apply Hb. exact Hy.
+Qed.
+
+Lemma leaf_sim_zsim : forall x y, leaf_sim x y = true -> zsim x y = true.
+Proof. intros [p| | | |] [q| | | |] H; try discriminate. exact H. Qed.
+
+Lemma list_eqb_inline : forall (f g : tree -> tree -> bool) cs ds,
+  (forall c d, In c cs -> In d ds -> f c d = true -> g c d = true) ->
+  list_eqb f cs ds = true ->
+  (fix go (xs ys : list tree) {struct xs} : bool :=
+     match xs, ys with
+     | [], [] => true
+     | x :: xs', y :: ys' => g x y && go xs' ys'
+     | _, _ => false
+     end) cs ds = true.
+Proof.
+  intros f g cs. induction cs as [|c cs IH]; intros [|d ds] Hfg H; try discriminate; [reflexivity|].
+  cbn [list_eqb] in H. apply andb_prop in H as [H1 H2]. apply andb_true_intro. split.
+  - apply Hfg; [left; reflexivity|left; reflexivity|exact H1].
+  - apply IH; [|exact H2]. intros c' d' Hc' Hd'. apply Hfg; right; assumption.
+Qed.
+
+Lemma list_eqb_mono : forall (f g : tree -> tree -> bool) cs ds,
+  (forall c d, f c d = true -> g c d = true) -> list_eqb f cs ds = true -> list_eqb g cs ds = true.
+Proof.
+  intros f g cs. induction cs as [|c cs IH]; intros [|d ds] Hfg H; try discriminate; [reflexivity|].
+  cbn [list_eqb] in *. apply andb_prop in H as [H1 H2]. rewrite (Hfg _ _ H1). apply IH; assumption.
+Qed.
+
+Lemma zsim_key : forall c d, kvp_ok c -> kvp_ok d -> zsim c d = true -> key_eqb c d = true.
+Proof.
+  intros c d [a1 [l1 [v1 [-> H1]]]] [a2 [l2 [v2 [-> H2]]]] H. unfold key_eqb. cbn in *.
+  apply andb_prop in H. tauto.
+Qed.
+
+Definition Pzd (a : tree) : Prop := forall b,
+  wf a = true -> wf b = true -> typed a b = true -> nozero a = true -> nozero b = true ->
+  zsim a b = true -> data_eqb a b = true.
+
+(* members of two similar mappings *)
+Lemma mapping_zsim_data : forall cs ds,
+  Forall Pzd cs ->
+  forallb (fun c => is_kvp c && wf c) cs = true -> keys_distinct node_eqb cs = true ->
+  forallb (fun c => is_kvp c && wf c) ds = true -> keys_distinct node_eqb ds = true ->
+  (forall c d, In c cs -> In d ds -> typed c d = true) ->
+  forallb nozero cs = true -> forallb nozero ds = true ->
+  Nat.eqb (length cs) (length ds) && forallb (fun x => existsb (fun y => zsim x y) ds) cs = true ->
+  Nat.eqb (length cs) (length ds) &&
+  (fix all (xs : list tree) : bool :=
+     match xs with [] => true | x :: xs' => existsb (fun y => data_eqb x y) ds && all xs' end) cs &&
+  forallb (fun y => existsb (fun x => data_eqb x y) cs) ds = true.
+Proof.
+  intros cs ds IH Hwa Kcs Hwb Kds Ht Hna Hnb Hz.
+  destruct (wf_mset_parts _ Hwa) as [Hcs Hwcs]. destruct (wf_mset_parts _ Hwb) as [Hds Hwds].
+  apply andb_prop in Hz as [Hlen Hinc]. rewrite forallb_forall in Hinc, Hna, Hnb. rewrite Forall_forall in IH.
+  assert (HD : forall c d, In c cs -> In d ds -> zsim c d = true -> data_eqb c d = true).
+  { intros c d Hc Hd Hzz. apply (IH c Hc d); auto. }
+  rewrite Hlen. cbn [andb]. apply andb_true_intro. split.
+  - rewrite <- forallb_inline. apply forallb_forall. intros c Hc. specialize (Hinc c Hc).
+    apply existsb_exists in Hinc. destruct Hinc as [d [Hd Hzz]]. apply existsb_exists. exists d. split; [exact Hd|]. auto.
+  - apply forallb_forall. intros d Hd. apply Nat.eqb_eq in Hlen.
+    destruct (incl_surj zsim cs ds Hcs Hds Kcs Kds) as [_ Hsurj].
+    + intros c d' Hc Hd' Hzz. apply zsim_key; [exact (proj1 (Forall_forall _ _) Hcs c Hc)|
+                                               exact (proj1 (Forall_forall _ _) Hds d' Hd')|exact Hzz].
+    + intros c Hc. specialize (Hinc c Hc). apply existsb_exists in Hinc. exact Hinc.
+    + destruct (Hsurj Hlen d Hd) as [c [Hc Hzz]]. apply existsb_exists. exists c. split; [exact Hc|]. auto.
+Qed.
+
+Theorem zsim_data : forall a, Pzd a.
+Proof.
+  apply tree_rect'.
+  - intros x [y| | | |] _ _ Ht _ _ Hz; try discriminate. cbn in *. rewrite Hz in Ht. cbn in Ht.
+    rewrite !andb_true_r in Ht. exact Ht.
+  - intros ale alsl cs IH [y|ale' alsl' ds| | |] Hwa Hwb Ht Hna Hnb Hz; try discriminate.
+    cbn [zsim] in Hz. cbn [nozero] in Hna, Hnb. cbn [wf] in Hwa, Hwb.
+    apply andb_prop in Hna as [Hna1 Hna2]. apply andb_prop in Hnb as [Hnb1 Hnb2].
+    assert (Hl : list_eqb zsim cs ds = true).
+    { destruct (list_eqb zsim cs ds) eqn:El; [reflexivity|]. cbn [orb] in Hz.
+      apply andb_prop in Hz as [Hz Hf]. apply andb_prop in Hz as [HA HB].
+      rewrite HA in Hna1. rewrite HB in Hnb1. cbn [andb] in Hna1, Hnb1.
+      apply negb_true_iff in Hna1. apply negb_true_iff in Hnb1.
+      assert (Fa : filter nonempty cs = cs).
+      { apply filter_all_true. intros c Hc. unfold nonempty. destruct (empty_leaf c) eqn:Ee; [|reflexivity].
+        assert (existsb empty_leaf cs = true) by (apply existsb_exists; eauto). congruence. }
+      assert (Fb : filter nonempty ds = ds).
+      { apply filter_all_true. intros d Hd. unfold nonempty. destruct (empty_leaf d) eqn:Ee; [|reflexivity].
+        assert (existsb empty_leaf ds = true) by (apply existsb_exists; eauto). congruence. }
+      rewrite Fa, Fb in Hf. rewrite (list_eqb_mono leaf_sim zsim cs ds leaf_sim_zsim Hf) in El. discriminate. }
+    cbn [data_eqb]. apply (list_eqb_inline zsim data_eqb cs ds); [|exact Hl].
+    intros c d Hc Hd Hzz. rewrite Forall_forall in IH. rewrite forallb_forall in Hna2, Hnb2. apply (IH c Hc d); auto.
+    + eapply wf_child_lst; [exact Hwa|exact Hc].
+    + eapply wf_child_lst; [exact Hwb|exact Hd].
+    + eapply typed_sub; [| |exact Ht]; apply leaves_child; assumption.
+  - intros ake k v IHk IHv [y| |ake' k' v'| |] Hwa Hwb Ht Hna Hnb Hz; try discriminate.
+    cbn [zsim data_eqb] in *. cbn [nozero] in Hna, Hnb. cbn [wf] in Hwa, Hwb.
+    apply andb_prop in Hz as [Hz1 Hz2]. apply andb_prop in Hna as [Hna1 Hna2]. apply andb_prop in Hnb as [Hnb1 Hnb2].
+    apply andb_prop in Hwa as [Hwa Hwv]. apply andb_prop in Hwa as [Hwa _]. apply andb_prop in Hwa as [_ Hwk].
+    apply andb_prop in Hwb as [Hwb Hwv']. apply andb_prop in Hwb as [Hwb _]. apply andb_prop in Hwb as [_ Hwk'].
+    apply andb_true_intro. split.
+    + apply IHk; auto. eapply typed_sub; [| |exact Ht]; apply leaves_child; cbn; auto.
+    + apply IHv; auto. eapply typed_sub; [| |exact Ht]; apply leaves_child; cbn; auto.
+  - intros amk cs IH [y| | |amk' ds|] Hwa Hwb Ht Hna Hnb Hz; try discriminate.
+    cbn [zsim data_eqb nozero wf] in *.
+    apply andb_prop in Hwa as [Hwa Kcs]. apply andb_prop in Hwb as [Hwb Kds].
+    apply mapping_zsim_data; auto.
+    intros c d Hc Hd. eapply typed_sub; [| |exact Ht]; apply leaves_child; assumption.
+  - intros cs IH [y| | | |ds] Hwa Hwb Ht Hna Hnb Hz; try discriminate.
+    cbn [zsim data_eqb nozero wf] in *.
+    apply andb_prop in Hwa as [Hwa Kcs]. apply andb_prop in Hwb as [Hwb Kds].
+    apply mapping_zsim_data; auto.
+    intros c d Hc Hd. eapply typed_sub; [| |exact Ht]; apply leaves_child; assumption.
+Qed.
+
+(* ================================================================ 4. C02 for the model *)
+(* with exactly the carve-outs of the open findings D4 (typed) and D16 (nozero) *)
+Theorem script_zero_iff : forall O pa pb a b e,
+  wf a = true -> wf b = true -> numtext_ok a = true -> numtext_ok b = true -> consistent a b = true ->
+  typed a b = true -> nozero a = true -> nozero b = true ->
+  script O pa pb a b = OK e -> (cost e = 0 <-> data_eqb a b = true).
+Proof.
+  intros O pa pb a b e Hwa Hwb Hna Hnb Hc Ht Hza Hzb H. split.
+  - intro H0. apply zsim_data; try assumption.
+    destruct (script_zero_sim O pa pb a b e Hwa Hwb Hna Hnb H) as [_ Hz]. apply Hz. exact H0.
+  - intro Hd. eapply equal_zero; eauto.
+Qed.
+
+(* the full statement is false for the current code: the two open findings *)
+Definition mk_leaf (k : lkind) (t : str) (n : Z) : tree := Leaf {| lk := k; ltext := t; lnum := n; lexp := 0 |}.
+Definition no_oracle : oracle := {| o_match := []; o_order := [] |}.
+
+Definition full_C02_fails (a b : tree) (e : edit) : Prop :=
+  wf a = true /\ wf b = true /\ numtext_ok a = true /\ numtext_ok b = true /\ consistent a b = true /\
+  script no_oracle [] [] a b = OK e /\ cost e = 0 /\ data_eqb a b = false.
+
+(* D4: [1] vs [1.0] *)
+Theorem refuted_cross_type : exists a b e, full_C02_fails a b e /\ typed a b = false.
+Proof.
+  exists (Lst true true [mk_leaf KInt [49] 1]), (Lst true true [mk_leaf KFloat [49; 46; 48] 1]), (EMatch 0).
+  vm_compute. repeat split; reflexivity.
+Qed.
+
+(* D16: [] vs [null] *)
+Theorem refuted_zero_size : exists a b e, full_C02_fails a b e /\ nozero b = false.
+Proof.
+  exists (Lst true true []), (Lst true true [mk_leaf KNull [78; 111; 110; 101] 0]), (EComp KEditDist 0 [SIns 0 0]).
+  vm_compute. repeat split; reflexivity.
+Qed.
+
+(* every failure of the full statement lies in one of the two classes the harness uses to recognise the open findings *)
+Theorem script_failures_classified : forall O pa pb a b e ft ec,
+  wf a = true -> wf b = true -> numtext_ok a = true -> numtext_ok b = true -> consistent a b = true ->
+  script O pa pb a b = OK e ->
+  let c := {| sc_a := a; sc_b := b; sc_edit := e; sc_flat_total := ft; sc_edited_cost := ec |} in
+  spec_ok c = true /\
+  (holds_C02 c = false -> kf_cross_type_py_equal c || kf_zero_size_in_leaf_list c = true).
+Proof.
+  intros O pa pb a b e ft ec Hwa Hwb Hna Hnb Hc H c.
+  assert (Hs : spec_ok c = true).
+  { apply spec_ok_sound; cbn [sc_a sc_b sc_edit c]; try assumption.
+    - exact (script_valid a O pa pb b e Hwa Hwb H).
+    - exact (script_additive a O pa pb b e H).
+    - exact (script_priced a O pa pb b e Hwa Hwb H). }
+  split; [exact Hs|]. intro Hf. unfold holds_C02 in Hf. cbn [sc_a sc_b sc_edit c] in Hf.
+  unfold kf_cross_type_py_equal, kf_zero_size_in_leaf_list, zero_but_different. rewrite Hs.
+  cbn [sc_a sc_b sc_edit c andb].
+  destruct (Z.eqb_spec (cost e) 0) as [E0|E0]; destruct (data_eqb a b) eqn:Ed; try discriminate Hf.
+  - cbn [negb andb]. destruct (node_eqb a b); [reflexivity|]. cbn [negb andb orb].
+    destruct (script_zero_sim O pa pb a b e Hwa Hwb Hna Hnb H) as [_ Hz]. apply Hz. exact E0.
+  - exfalso. apply E0. eapply equal_zero; eauto.
+Qed.
+
+(* the hypotheses are satisfiable by non-trivial documents: {"a": [1, "x"], "b": null} against a copy with the keys
+   in the other order (cost 0, equal), and against {"a": [1, "y"], "b": null} (cost 2, different) *)
+Definition ex_doc (order : bool) (c : Z) : tree :=
+  let pa := Kvp true (mk_leaf KStr [97] 0) (Lst true true [mk_leaf KInt [49] 1; mk_leaf KStr [c] 0]) in
+  let pb := Kvp true (mk_leaf KStr [98] 0) (mk_leaf KNull [78; 111; 110; 101] 0) in
+  MSet true (if order then [pa; pb] else [pb; pa]).
+
+Definition hyps_C02 (a b : tree) : bool :=
+  wf a && wf b && numtext_ok a && numtext_ok b && consistent a b && typed a b && nozero a && nozero b.
+
+Example zero_iff_example_equal : exists e,
+  hyps_C02 (ex_doc true 120) (ex_doc false 120) = true /\
+  script no_oracle [] [] (ex_doc true 120) (ex_doc false 120) = OK e /\ cost e = 0 /\
+  data_eqb (ex_doc true 120) (ex_doc false 120) = true.
+Proof. eexists. vm_compute. repeat split; reflexivity. Qed.
+
+Example zero_iff_example_different : exists e,
+  hyps_C02 (ex_doc true 120) (ex_doc false 121) = true /\
+  script no_oracle [] [] (ex_doc true 120) (ex_doc false 121) = OK e /\ cost e = 2 /\
+  data_eqb (ex_doc true 120) (ex_doc false 121) = false.
+Proof. eexists. vm_compute. repeat split; reflexivity. Qed.
